@@ -255,6 +255,9 @@ func Check(c *Case) (o core.Outcome) {
 	if c.pixels() >= 1<<16 {
 		o.Label("pixels>=65536")
 	}
+	if c.Cols*c.bytesAlloc() >= 1<<16 {
+		o.Label("row-bytes>=65536")
+	}
 	if len(frame)%2 == 1 {
 		o.Label("odd-frame")
 	}
@@ -407,6 +410,22 @@ func TestQuota(t *testing.T) {
 				}
 				core.Eval(t, ID, "quota", c, Check)
 				i++
+			}
+		}
+	}
+	// very wide and very tall frames in every layout: row and plane strides (Columns x bytes per
+	// sample, Rows x Columns) that need more than 16 bits
+	for _, d := range [][2]int{{1, 65535}, {2, 40000}, {3, 32768}, {1, 16384}, {40000, 2}} {
+		for _, ba := range []int{8, 16, 32} {
+			for _, spp := range []int{1, 3} {
+				for planar := 0; planar <= 1; planar++ {
+					if spp == 1 && planar == 1 {
+						continue
+					}
+					c := &Case{Rows: d[0], Cols: d[1], BitsAlloc: ba, SPP: spp, Planar: planar, Mode: "noise", Seed: uint64(seed*131 + i)}
+					core.Eval(t, ID, "quota", c, Check)
+					i++
+				}
 			}
 		}
 	}
